@@ -8,6 +8,7 @@ from .pyexpr import Untranslatable
 GEN = {
     "Units.v": "units",
     "FromDict.v": "fromdict",
+    "Formulas.v": "chains",
 }
 
 
